@@ -5,7 +5,9 @@ import (
 	"sort"
 	"strings"
 
+	apiv1 "k8s.io/api/core/v1"
 	"sigs.k8s.io/controller-runtime/pkg/client"
+	"sigs.k8s.io/controller-runtime/pkg/event"
 
 	"github.com/go-logr/logr"
 	"github.com/nginx/nginx-gateway-fabric/internal/framework/events"
@@ -77,6 +79,8 @@ type Result struct {
 	KeyIDs                map[p.Key]int
 	Nondet, NondetSkipped int
 	ctrl                  *Ctrl // the long-lived controller at the end of the run
+	SvcWatch              []string
+	world                 *World
 }
 
 type Runner struct {
@@ -188,6 +192,7 @@ func (rn *Runner) Run(h *History) (res *Result) {
 		}
 	}()
 	w := NewWorld()
+	res.world = w
 	for _, o := range h.Init {
 		if _, _, err := w.Apply(p.KeyOf(o), o); err != nil {
 			res.Err = "init: " + err.Error()
@@ -379,6 +384,15 @@ func (rn *Runner) Run(h *History) (res *Result) {
 			default:
 				m.Op, m.Delivered = "update", passUpdate(ws, oldObj, newObj)
 				m.Label = diffLabel(oldObj, newObj, op.Key.Kind, op.Label)
+				if os, ok := oldObj.(*apiv1.Service); ok {
+					// what the REAL user-service predicate answered, for the correspondence of Footprint.watchSvc
+					for _, w := range ws {
+						if w.name == "user-service" && w.pred != nil {
+							v := w.pred.Update(event.UpdateEvent{ObjectOld: oldObj, ObjectNew: newObj})
+							res.SvcWatch = append(res.SvcWatch, fmt.Sprintf("old=%s new=%s\t%v", svcToken(os), svcToken(newObj.(*apiv1.Service)), v))
+						}
+					}
+				}
 			}
 			if _, ok := res.KeyIDs[op.Key]; !ok {
 				res.KeyIDs[op.Key] = len(res.KeyIDs)
@@ -537,4 +551,16 @@ func serviceOnlyOnIgnoredGateways(c *Ctrl, key p.Key) bool {
 		}
 	}
 	return found
+}
+
+// svcToken renders what the footprint model knows of a Service: ports in order (number:name:targetPort) / ipFamilies.
+func svcToken(s *apiv1.Service) string {
+	var ps, fs []string
+	for _, p := range s.Spec.Ports {
+		ps = append(ps, fmt.Sprintf("%d:%s:%s", p.Port, fpStr(p.Name), fpStr(p.TargetPort.String())))
+	}
+	for _, f := range s.Spec.IPFamilies {
+		fs = append(fs, string(f))
+	}
+	return fpList(ps, "+") + "/" + fpList(fs, "+")
 }
